@@ -267,7 +267,26 @@ func (pr *proto) node4() {
 							pr.rep.violate("NODE-4", name+"#state-compared", ssau.PosOf(ifi), "dependency State() is compared with a constant other than Processed")
 						}
 						tests = append(tests, depTest{kind: "state", at: ifi, cleanK: eqK, d: d, idx: idx})
+						// NODE-12: a test against a constant is not relative to the last execution. A dependency the
+						// processing never reads (a lazily evaluated input) is never processed, stays Stale, and keeps
+						// this test true after every execution: the node re-executes on every read with nothing changed.
+						pr.rep.violate("NODE-12", name+"#state-relative", ssau.PosOf(ifi), "the state of dependency i is compared with the constant Processed instead of the state remembered for it at the last execution: a dependency the processing never reads stays Stale, so Outdated() is still true right after processing and the node re-executes (and bumps its version) on every read")
 						break
+					}
+					// dep.State() != depStates[i]: the state remembered at the last execution, same position
+					if rd, ridx, isE := elemOf(y); isE {
+						if fv, _ := flow.LoadedField(flow.StripAll(rd)); ownStateField(fv, pr) {
+							if ridx != idx {
+								pr.rep.violate("NODE-4", name+"#state-compared", ssau.PosOf(ifi), "the state of dependency i is compared with the remembered state at a different position")
+							}
+							if !recordedFromState(pr, fv) {
+								pr.rep.violate("NODE-12", name+"#state-relative", ssau.PosOf(ifi), "the remembered states are never recorded from the dependencies' State() when the node executes")
+							} else {
+								pr.rep.hold("NODE-12", name+"#state-relative", ssau.PosOf(ifi), "the state of dependency i is compared with the state recorded for it at the last execution (read dependencies are Processed then; unread ones may stay Stale without making the node outdated)")
+							}
+							tests = append(tests, depTest{kind: "state", at: ifi, cleanK: eqK, d: d, idx: idx})
+							break
+						}
 					}
 				}
 			}
@@ -707,4 +726,42 @@ func (e *ordEngine) checkReturnsOrdered(rep reporter, rule, construct string, fn
 		return
 	}
 	rep.hold(rule, construct, fn.Pos(), facts...)
+}
+
+// ownStateField: a slice field of the node type, other than the remembered versions, whose elements are of the type
+// State() returns (the remembered dependency states).
+func ownStateField(fv *types.Var, pr *proto) bool {
+	if fv == nil || sameField(fv, pr.fDepV) {
+		return false
+	}
+	sl, ok := fv.Type().Underlying().(*types.Slice)
+	if !ok {
+		return false
+	}
+	n, ok := sl.Elem().(*types.Named)
+	return ok && n.Obj().Name() == "NodeState"
+}
+
+// recordedFromState: some method of the node type stores the result of a dependency's State() into an element of fv.
+func recordedFromState(pr *proto, fv *types.Var) bool {
+	found := false
+	for _, fn := range pr.fns {
+		ssau.AllInstrs(fn, func(in ssa.Instruction) {
+			st, ok := in.(*ssa.Store)
+			if !ok {
+				return
+			}
+			ia, ok := st.Addr.(*ssa.IndexAddr)
+			if !ok {
+				return
+			}
+			if f, _ := flow.LoadedField(flow.StripAll(ia.X)); !sameField(f, fv) {
+				return
+			}
+			if _, isS := methodCallOn(st.Val, "State"); isS {
+				found = true
+			}
+		})
+	}
+	return found
 }
